@@ -1479,7 +1479,15 @@ def s_contains(it, s, sub):
 def s_replace(it, s, old, new, count=-1):
     if count == 1:
         return s.replace_first(old, new)
-    return SStr(z3.ReplaceAll(s.t, S(old), S(new))) if hasattr(z3, "ReplaceAll") else _oos("replace all")
+    if count != -1 or not isinstance(old, str) or old == "":
+        # SMT-LIB's str.replace_all leaves the string alone for an empty pattern, Python inserts between all characters: not modelled
+        _oos("replace with a count other than 1 / all, or with a symbolic or empty pattern")
+    return SStr(replace_all(s.t, S(old), S(new)))
+
+
+def replace_all(s, old, new):
+    """SMT-LIB str.replace_all (every non-overlapping occurrence, left to right: Python's str.replace for a non-empty pattern)"""
+    return z3.SeqRef(z3.Z3_mk_seq_replace_all(s.ctx.ref(), s.as_ast(), old.as_ast(), new.as_ast()), s.ctx)
 
 
 def _oos(msg):
